@@ -1,6 +1,12 @@
 import Abyss.Props.C01
 import Abyss.Props.C01Gen
 import Abyss.Props.GenCorollaries
+import Abyss.Props.C01Budget
+#print axioms Abyss.C01_generated_budget
+#print axioms Abyss.C01_generated_from_empty_budget
+#print axioms Abyss.FilesSmall_of_budget
+#print axioms Abyss.end_le_budget
+#print axioms Abyss.budgetExample_ok
 #print axioms Abyss.C01_generated_from_empty
 #print axioms Abyss.C01_history
 #print axioms Abyss.run_refines
